@@ -635,7 +635,7 @@ def approximate_capacity(accessor, tolerance_level=-10, repeats=1, maximum_itera
 
         last_eigenvector[ignore_positions] = 0.0  # refers to the vertex without follow-up vertices.
 
-        monitor, queue, last_eigenvalue, current = Monitor(), [], None, 0
+        monitor, queue, last_eigenvalue, former_eigenvector, current = Monitor(), [], None, None, 0
         while True:
             eigenvector = zeros_like(last_eigenvector)
             for positions in accessor.T:
@@ -661,8 +661,14 @@ def approximate_capacity(accessor, tolerance_level=-10, repeats=1, maximum_itera
 
                 is_finished = False
                 if relative_error < 10 ** tolerance_level:
-                    results.append(log2(eigenvalue) if eigenvalue > 10 ** tolerance_level else 0.0)
-                    is_finished = True
+                    # two equal estimates are not enough (they may coincide by accident), the vector must have
+                    # settled as well, either to a fixed vector or (in a periodic graph) to an alternating pair.
+                    is_settled = max(abs(eigenvector - last_eigenvector)) < 10 ** tolerance_level
+                    if not is_settled and former_eigenvector is not None:
+                        is_settled = max(abs(eigenvector - former_eigenvector)) < 10 ** tolerance_level
+                    if is_settled:
+                        results.append(log2(eigenvalue) if eigenvalue > 10 ** tolerance_level else 0.0)
+                        is_finished = True
 
                 if len(queue) > maximum_iteration:
                     eigenvalue = median(queue)
@@ -674,6 +680,7 @@ def approximate_capacity(accessor, tolerance_level=-10, repeats=1, maximum_itera
                         monitor(maximum_iteration, maximum_iteration, extra={"capacity": "%.5f" % results[-1]})
                     break
 
+            former_eigenvector = last_eigenvector
             last_eigenvalue, last_eigenvector, current = eigenvalue, eigenvector, current + 1
 
     if process:
